@@ -243,6 +243,8 @@ pub struct St {
     /// a compare-exchange succeeded on a node word that was not reachable from the sentinel at that moment
     /// (the node had been popped and its header re-written by a thread that is about to re-insert it)
     aba_mark: Option<String>,
+    /// per thread: offset of the segment it has marked and not yet unlinked or restored
+    my_mark: Vec<Option<usize>>,
 }
 
 #[derive(Clone)]
@@ -443,6 +445,7 @@ fn after_event(sh: &Shared, t: usize, e: &Event) {
                     st.force = Some((t, st.mark_preempt as u32));
                 }
                 st.classes.insert("mark-cas");
+                st.my_mark[t] = Some(off);
             }
             // ABA symptom: a successful compare-exchange on a node word that is not linked into the list
             if e.wrote && off >= st.data_offset && st.aba_mark.is_none() && !st.freed {
@@ -459,6 +462,14 @@ fn after_event(sh: &Shared, t: usize, e: &Event) {
     }
     if e.kind == Kind::Load && in_arena && width == 8 && (e.old >> 32) == 0 {
         st.saw_marked = true;
+    }
+    // the marking thread finishes its removal (predecessor now skips the segment) or puts the word back
+    if let Some(m) = st.my_mark[t] {
+        let restored = e.kind == Kind::Store && in_arena && off == m && (e.new >> 32) != 0;
+        let unlinked = e.kind == Kind::Cas && e.wrote && width == 8 && (e.old as u32) as usize == m && (e.new as u32) as usize != m;
+        if restored || unlinked {
+            st.my_mark[t] = None;
+        }
     }
     // C13: the reference count always equals the number of live arena values
     if e.addr == st.refs_addr && st.refs_addr != 0 {
@@ -693,10 +704,11 @@ fn run_prog(sh: &Arc<Shared>, t: usize, arena: &'static Arena, prog: &[POp], clo
                     _ => unreachable!(),
                 };
                 let Ok(mut obj) = r else {
-                    let mut st = lock(sh);
-                    st.classes.insert("alloc-failed");
+                    lock(sh).classes.insert("alloc-failed");
+                    check_no_orphan_mark(sh, t, true);
                     continue;
                 };
+                check_no_orphan_mark(sh, t, false);
                 let (off, cap) = (obj.offset(), obj.capacity());
                 if cap == 0 {
                     obj.detach();
@@ -778,9 +790,11 @@ fn run_prog(sh: &Arc<Shared>, t: usize, arena: &'static Arena, prog: &[POp], clo
                         lock(sh).holders -= 1;
                     }
                 }
+                check_no_orphan_mark(sh, t, false);
             }
             POp::Discard => {
                 let _ = arena.discard_freelist();
+                check_no_orphan_mark(sh, t, false);
             }
             POp::CloneArena => {
                 if clones.len() < 3 {
@@ -862,6 +876,28 @@ fn run_prog(sh: &Arc<Shared>, t: usize, arena: &'static Arena, prog: &[POp], clo
     while let Some(c) = clones.pop() {
         drop(c);
         lock(sh).holders -= 1;
+    }
+}
+
+/// An operation has returned: a segment it marked must have been unlinked or restored by now.
+fn check_no_orphan_mark(sh: &Arc<Shared>, t: usize, failed: bool) {
+    let mut st = lock(sh);
+    let Some(m) = st.my_mark[t].take() else { return };
+    if st.freed {
+        return;
+    }
+    let reach = st.freelist_raw();
+    if reach.iter().any(|n| n.0 as usize == m && n.1 == 0) {
+        let doing = st.last_op[t].clone();
+        let v = if failed {
+            viol!("C04|C07", "failed-call-left-marked-segment", "thread {t}: {doing} failed but left the segment at offset {m} marked (size 0) and linked: the failed call changed the free list; reachable list {:?}", reach)
+        } else {
+            viol!("C07", "returned-leaving-marked-segment", "thread {t}: {doing} returned leaving the segment at offset {m} marked (size 0) and linked; reachable list {:?}", reach)
+        };
+        st.fail(v);
+        sh.cv.notify_all();
+        drop(st);
+        unwind_abort();
     }
 }
 
@@ -1040,6 +1076,7 @@ fn run_case_b_inner(case: &CaseB, o: &OptsB) -> RunB {
         arena_ptrs,
         unmount_thread: None,
         aba_mark: None,
+        my_mark: vec![None; n],
     };
     let sh = Arc::new(Shared { m: Mutex::new(st), cv: Condvar::new() });
     // main's existing writes (pre-history payloads) happen-before the threads: spawn edge
